@@ -93,20 +93,22 @@ def translate_c_to_cirq(source_circuit, noise_model=None, save_measurements=Fals
 
     # Maps the gate information properly. Different for each backend (order, values)
     for gate in source_circuit._gates:
+        # A multi-controlled CNOT is translated like CX; the source gate (and its name, used for the noise model) is not modified
+        gate_name = gate.name
         if gate.control is not None:
             num_controls = len(gate.control)
             control_list = [qubit_list[c] for c in gate.control]
-            if gate.name == 'CNOT' and num_controls > 1:
-                gate.name = 'CX'
+            if gate_name == 'CNOT' and num_controls > 1:
+                gate_name = 'CX'
         if gate.name in {"H", "X", "Y", "Z", "S", "SDAG", "T"}:
             target_circuit.append(GATE_CIRQ[gate.name](qubit_list[gate.target[0]]))
-        elif gate.name in {"CH", "CX", "CY", "CZ"}:
-            next_gate = GATE_CIRQ[gate.name].controlled(num_controls)
+        elif gate_name in {"CH", "CX", "CY", "CZ"}:
+            next_gate = GATE_CIRQ[gate_name].controlled(num_controls)
             target_circuit.append(next_gate(*control_list, qubit_list[gate.target[0]]))
         elif gate.name in {"RX", "RY", "RZ"}:
             next_gate = GATE_CIRQ[gate.name](gate.parameter)
             target_circuit.append(next_gate(qubit_list[gate.target[0]]))
-        elif gate.name in {"CNOT"}:
+        elif gate_name in {"CNOT"}:
             target_circuit.append(GATE_CIRQ[gate.name](qubit_list[gate.control[0]], qubit_list[gate.target[0]]))
         elif gate.name in {"MEASURE"}:
             key = str(measure_count) if save_measurements else None
